@@ -2,11 +2,6 @@
 
 mod connection;
 
-#[cfg(feature = "verif-hooks")]
-pub(crate) fn verif_next_command_idle_timeout() -> std::time::Duration {
-    connection::verif_next_command_idle_timeout()
-}
-
 use std::{
     fmt,
     hash::{Hash, Hasher},
